@@ -195,6 +195,10 @@ func (e *Env) Monitor(st *Step) {
 	}
 	st.Unhealthy = e.Mon.Unhealthy
 
+	if kind == "reimport" {
+		e.monitorReimport(st)
+	}
+
 	// ---- C01 custody -------------------------------------------------------------------------------
 	for d := 0; d < 3; d++ {
 		if d == post.BondDenom {
